@@ -564,6 +564,57 @@ def w_range_layout(failure, tier):
     return dict(found=False, note='range buckets: %d (aggregation, layout) combinations give the single-segment answer' % n)
 
 
+# ---------------------------------------------------------------- U59 column upgrade
+def w_column_upgrade(failure, tier):
+    """one batch in which a fast field first takes single values (with gaps) and then a list: the column is upgraded in the
+    middle of the batch; every document must still be found under exactly its own values"""
+    add = {"numeric_fields": [{"name": "n", "i64": True, "fast": True, "stored": True}, {"name": "x", "i64": False, "fast": True, "stored": True}],
+           "keyword_fields": [{"name": "tag", "stored": True, "indexed": True, "fast": True}]}
+    rows = [(5, 0.5, "a"), (None, None, None), (7, 1.5, "b"), (None, 2.5, "c"), (9, None, None), ([1, 2], [3.5, 4.5], ["d", "a"]), (11, 5.5, "e"), ([], [], [])]
+    docs = []
+    for i, (n, x, t) in enumerate(rows):
+        d = {"_id": "d%d" % i, "body": "alpha"}
+        if n is not None and n != []:
+            d["n"] = n
+        if x is not None and x != []:
+            d["x"] = x
+        if t is not None and t != []:
+            d["tag"] = t
+        docs.append(d)
+    def vals(v):
+        return [] if v is None else (v if isinstance(v, list) else [v])
+    reqs, expect, what = [], [], []
+    for v in (1, 2, 5, 7, 9, 11, 0):
+        reqs.append(dict(REQ_BASE, query={"type": "match_all"}, filter={"I64Range": {"field": "n", "min": v, "max": v}}))
+        expect.append(sorted("d%d" % i for i, r in enumerate(rows) if v in vals(r[0])))
+        what.append('n = %d' % v)
+    for v in (0.5, 1.5, 2.5, 3.5, 4.5, 5.5):
+        reqs.append(dict(REQ_BASE, query={"type": "match_all"}, filter={"F64Range": {"field": "x", "min": v, "max": v}}))
+        expect.append(sorted("d%d" % i for i, r in enumerate(rows) if v in vals(r[1])))
+        what.append('x = %s' % v)
+    for v in ("a", "b", "c", "d", "e", "z"):
+        reqs.append(dict(REQ_BASE, query={"type": "match_all"}, filter={"KeywordEq": {"field": "tag", "value": v}}))
+        expect.append(sorted("d%d" % i for i, r in enumerate(rows) if v in vals(r[2])))
+        what.append('tag = %s' % v)
+    n = 0
+    for lay in ([docs], [docs[:6], docs[6:]], [docs[:5], docs[5:]]):
+        out, err = drive_search({"schema": None, "schema_add": add, "batches": lay, "requests": reqs})
+        if out is None:
+            return dict(found=False, note='search driver failed: %s' % err)
+        for w, e, o in zip(what, expect, out):
+            if 'panic' in o:
+                return dict(found=True, cmd='%s search' % BIN, input='batch %s; filter %s' % (_json.dumps(docs), w), observed='PANIC ' + o['panic'][:200], expected='no panic')
+            if 'ok' not in o:
+                return dict(found=False, note='search driver: %s' % str(o)[:300])
+            got = sorted(h['doc_id'] for h in o['ok']['hits'])
+            n += 1
+            if got != e:
+                return dict(found=True, cmd='%s search <<< hex(json)' % BIN,
+                            input='documents %s in %d batch(es) (n, x, tag are fast fields: single values first, then a list in d5); filter %s' % (_json.dumps([dict((k, v) for k, v in d.items() if k != 'body') for d in docs]), len(lay), w),
+                            observed='hits %s' % got, expected='hits %s (the documents that hold the value)' % e)
+    return dict(found=False, note='column upgrade: %d filters over 8 documents in 3 layouts find exactly the documents that hold the value' % n)
+
+
 # ---------------------------------------------------------------- U14 sort-plan fingerprint
 def w_plan_hash(failure, tier):
     """a sort cursor taken under one plan and replayed under a plan that differs in the direction of one key must be rejected"""
@@ -2124,6 +2175,11 @@ GENERATORS = {
     ('U50', 'significant_finalize_cut'): w_terms_layout,
     ('U56', 'rare_finalize_cut'): w_terms_layout,
     ('U58', 'merge_range_bucket_lists'): w_range_layout,
+    ('U59', 'upgrade_i64'): w_column_upgrade,
+    ('U59', 'upgrade_f64'): w_column_upgrade,
+    ('U59', 'upgrade_str'): w_column_upgrade,
+    ('U59', 'str_list_push'): w_column_upgrade,
+    ('U59', 'str_push'): w_column_upgrade,
     ('U57', 'range_merge_arm'): w_range_layout,
     ('U57', 'date_range_merge_arm'): w_range_layout,
     ('U48', 'composite_source_values'): w_composite,
